@@ -28,7 +28,7 @@ def gen_val(rng, missing_ok=True):
 
 def gen_seq(rng):
     """list of ops; registers are table handles"""
-    cols = NAMES[:rng.choice([1, 2, 2, 3])]
+    cols = NAMES[:rng.choice([1, 2, 2, 3, 0])]
     ops = []
     nregs = 1
     allow_alias = rng.random() < 0.12
@@ -37,6 +37,10 @@ def gen_seq(rng):
     colsof = {0: list(cols)}
     def mutable(r):
         return allow_alias or not derived[r]
+    if not cols:      # a table created without declared columns: its first insert brings them
+        ds = [{kk: gen_val(rng, False) for kk in rng.sample(NAMES, rng.randrange(2, 4))} for _ in range(rng.randrange(1, 4))]
+        ops.append(("insert_dicts", 0, ds))
+        colsof[0] = sorted(set().union(*[d.keys() for d in ds]))
     for _ in range(rng.randrange(3, 11)):
         r = rng.randrange(nregs)
         k = rng.random()
